@@ -78,6 +78,12 @@ def r1_exit_codes(chk):
         else:
             chk.ob('C20.R1', 'exit@%s' % ctx, False, where(mod, c), 'exit argument %s is not a sysexits constant' % (
                 norm(a) if a is not None else None))
+    for word in ('--help', '--version'):
+        ifs = [n for n in ast.walk(mod.tree) if isinstance(n, ast.If) and any(
+            isinstance(c_, ast.Constant) and c_.value == word for c_ in ast.walk(n.test))]
+        ok_ = len(ifs) == 1 and isinstance(ifs[0].body[-1], ast.Expr) and isinstance(ifs[0].body[-1].value, ast.Call) and \
+            dotted_name(ifs[0].body[-1].value.func) == 'sys.exit' and [norm(a) for a in ifs[0].body[-1].value.args] == ['EX_OK']
+        chk.ob('C20.R1', 'exit-after%s' % word, ok_, MIBDUMP, '%s prints and exits with EX_OK as its last statement' % word)
     chk.ob('C20.R1', 'final-exit', final is not None, MIBDUMP, 'no sys.exit(<computed code>)')
     if final is None:
         return
@@ -221,15 +227,8 @@ def r3_options(chk):
                             if isinstance(s, ast.Expr) and isinstance(s.value, ast.Call) and not norm(s.value).startswith(
                                     ('sys.stderr.write', 'sys.exit')):
                                 effects.setdefault(o[2:], []).append(norm(s.value))
-            for cmp_ in ast.walk(n.test):
-                if isinstance(cmp_, ast.Compare) and norm(cmp_.left) == 'opt[0]' and (
-                        len(cmp_.ops) != 1 or not isinstance(cmp_.ops[0], ast.Eq)):
-                    chk.ob('C20.R3', 'option-test %s' % norm(cmp_)[:50], False, where(mod, cmp_),
-                           'an option handler must test equality with the option name')
-            if isinstance(n.test, ast.UnaryOp) and any(norm(c_.left) == 'opt[0]' for c_ in ast.walk(n.test)
-                                                       if isinstance(c_, ast.Compare)):
-                chk.ob('C20.R3', 'option-test %s' % norm(n.test)[:50], False, where(mod, n),
-                       'negated option test: the handler runs for every other option')
+    for rel_ in (MIBDUMP, MIBCOPY):
+        _option_test_shape(chk, model.mod(rel_), rel_)
     want_effects = {
         'quiet': ['verboseFlag = False'], 'debug': ["debug.setLogger(debug.Debug(*opt[1].split(',')))"],
         'mib-source': ['mibSources.append(opt[1])'], 'mib-searcher': ['mibSearchers.append(opt[1])'],
@@ -274,6 +273,11 @@ def r3_options(chk):
         chk.ob('C20.R3', 'compile(*inputMibs)', any(isinstance(a, ast.Starred) and norm(a.value) == 'inputMibs'
                                                     for a in comp[0].args), where(mod, comp[0]), '')
     bi = [c for c in ast.walk(mod.tree) if isinstance(c, ast.Call) and norm(c.func) == 'mibCompiler.buildIndex']
+    chk.ob('C20.R3', 'buildIndex-call', len(bi) == 1, MIBDUMP, '--build-index must lead to one mibCompiler.buildIndex() call')
+    go = [c for c in ast.walk(mod.tree) if isinstance(c, ast.Call) and dotted_name(c.func) == 'getopt.getopt']
+    chk.ob('C20.R3', 'getopt-arguments', len(go) == 1 and len(go[0].args) == 3 and norm(go[0].args[0]) == 'sys.argv[1:]'
+           and isinstance(go[0].args[1], ast.Constant) and isinstance(go[0].args[2], ast.List), MIBDUMP,
+           'getopt.getopt(sys.argv[1:], <short options>, [<long options>])')
     if bi:
         kw = dict((k.arg, norm(k.value)) for k in bi[0].keywords)
         chk.ob('C20.R3', 'buildIndex(dryRun=)', kw.get('dryRun') == 'dryrunFlag', where(mod, bi[0]), '%s' % kw)
@@ -281,6 +285,41 @@ def r3_options(chk):
         chk.ob('C20.R3', 'buildIndex-under-flag', any(isinstance(p, ast.If) and norm(p.test) == 'buildIndexFlag'
                                                       for p in parents(bi[0])), where(mod, bi[0]), '')
         chk.ob('C20.R3', 'buildIndex(processed)', bool(bi[0].args) and norm(bi[0].args[0]) == 'processed', where(mod, bi[0]), '')
+
+
+def _option_test_shape(chk, mod, rel):
+    """every test of the current option is `opt[0] == '<name>'` (or an or-chain of such), un-negated; every long option
+    declared to getopt has such a test"""
+    declared, tested = [], set()
+    for c in ast.walk(mod.tree):
+        if isinstance(c, ast.Call) and dotted_name(c.func) == 'getopt.getopt' and len(c.args) == 3 and \
+                isinstance(c.args[2], ast.List):
+            declared = [e.value.rstrip('=') for e in c.args[2].elts if isinstance(e, ast.Constant)]
+    nm = rel.split('/')[-1]
+    for n in ast.walk(mod.tree):
+        if not isinstance(n, ast.If):
+            continue
+        cmps = [c_ for c_ in ast.walk(n.test) if isinstance(c_, ast.Compare) and norm(c_.left) == 'opt[0]']
+        if not cmps:
+            continue
+        alts = n.test.values if isinstance(n.test, ast.BoolOp) and isinstance(n.test.op, ast.Or) else [n.test]
+        ok = all(isinstance(a_, ast.Compare) and len(a_.ops) == 1 and isinstance(a_.ops[0], ast.Eq) and
+                 norm(a_.left) == 'opt[0]' and isinstance(a_.comparators[0], ast.Constant) for a_ in alts)
+        chk.ob('C20.R3', '%s/option-test %s' % (nm, norm(n.test)[:50]), ok, where(mod, n),
+               'an option handler must be guarded by `opt[0] == <option>` (or an or-chain of such), un-negated')
+        if ok:
+            for a_ in alts:
+                tested.add(a_.comparators[0].value.lstrip('-'))
+    if rel == MIBDUMP:
+        for o in declared:
+            chk.ob('C20.R3', '%s/option --%s has a handler' % (nm, o), o in tested, rel, 'declared to getopt but never tested')
+    else:
+        # mibcopy declares --dry-run and --mib-stub to getopt (and documents --dry-run) without handling them: the
+        # options are accepted and ignored.  C20 does not speak about mibcopy's options, so this is noted, not judged.
+        unhandled = sorted(o for o in declared if o not in tested)
+        if unhandled:
+            chk.note('%s: options declared to getopt but never handled: %s (outside the stated property)' % (
+                nm, ', '.join('--' + o for o in unhandled)))
 
 
 def parents(n):
@@ -454,7 +493,14 @@ def r6_format_wiring(chk):
             chk.ob('C20.R6', 'pysnmp/no-suffix-override', not any(k in sufs for k in ('PyFileWriter', 'PyFileSearcher')),
                    MIBDUMP, 'suffixes %s' % sufs)
         chk.ob('C20.R6', '%s/stub-searcher' % fmt, any(_dn(c.func) == 'StubSearcher' and
-               [norm(a) for a in c.args] == ['*mibStubs'] for c in calls) or fmt == 'pysnmp', MIBDUMP, '')
+               [norm(a) for a in c.args] == ['*mibStubs'] for c in calls), MIBDUMP,
+               'the stub list must be handed to a StubSearcher in the searcher list of this format')
+        if fmt == 'pysnmp':
+            pk = [c for c in calls if _dn(c.func) == 'PyPackageSearcher']
+            ok_ = len(pk) == 1 and isinstance(getattr(common.stmt_of(pk[0]), '_parent', None), ast.For) and \
+                norm(common.stmt_of(pk[0])).startswith('searchers.append(')
+            chk.ob('C20.R6', 'pysnmp/package-searchers', ok_, MIBDUMP,
+                   'every --mib-searcher package must become a PyPackageSearcher in the searcher list')
     dirnames = set()
     for fmt, body in branches.items():
         for c in [c for s_ in body for c in ast.walk(s_) if isinstance(c, ast.Call)]:
@@ -491,6 +537,7 @@ def r8_failed_leaves_no_file(chk):
 def r9_wellformedness(chk):
     rels = sorted(r for r in chk.model.modules if r.startswith(('scripts/',)))
     common.wellformedness(chk, 'C20.R9', rels, floor=4)
+    common.given_values_not_discarded(chk, 'C20.R9', rels)
 
 
 
